@@ -123,5 +123,83 @@ def uncoupled_chain_is_single_sites(inp):
     return {'violates': bool(bad), 'detail': bad[:6]}
 
 
+def two_site_chain_vs_dense(inp):
+    """two-site chain with GENERIC (complex, non-symmetric) site and nearest-neighbour Hamiltonians and Lindblad operators:
+    (a) every Liouvillian the chain assembles equals the generator built densely from the full two-site operators (index order
+    ((row_1, col_1), (row_2, col_2))), (b) PT-TEBD propagates the chain exactly as the dense generator does (one bond: no Trotter error)"""
+    import numpy as np
+    import oqupy
+    from scipy.linalg import expm
+    rng = np.random.default_rng(7)
+
+    def rnd(d):
+        return rng.normal(size=(d, d)) + 1j * rng.normal(size=(d, d))
+
+    def herm(d):
+        m = rnd(d)
+        return (m + m.conj().T) / 2
+    bad = []
+    for d1, d2 in ((2, 2), (2, 3)):
+        D = d1 * d2
+        h1, h2, A, B = herm(d1), herm(d2), rnd(d1), rnd(d2)
+        a1, nl, nr = rnd(d1), rnd(d1), rnd(d2)
+        g1, g2 = 0.3, 0.2
+        chain = oqupy.SystemChain(hilbert_space_dimensions=[d1, d2])
+        chain.add_site_hamiltonian(site=0, hamiltonian=h1)
+        chain.add_site_hamiltonian(site=1, hamiltonian=h2)
+        chain.add_site_dissipation(site=0, lindblad_operator=a1, gamma=g1)
+        chain.add_nn_hamiltonian(site=0, hamiltonian_l=A, hamiltonian_r=B)
+        chain.add_nn_dissipation(site=0, lindblad_operator_l=nl, lindblad_operator_r=nr, gamma=g2)
+
+        def gen(rho_to_drho, dims):
+            """dense generator in the chain's index order from a linear map on density matrices"""
+            n = int(np.prod(dims))
+            L = np.zeros((n * n, n * n), dtype=complex)
+            for k in range(n * n):
+                e = np.zeros(n * n, dtype=complex)
+                e[k] = 1
+                if len(dims) == 1:
+                    rho = e.reshape(n, n)
+                    L[:, k] = rho_to_drho(rho).reshape(-1)
+                else:
+                    x, y = dims
+                    rho = e.reshape(x, x, y, y).transpose(0, 2, 1, 3).reshape(n, n)      # ((r1,c1),(r2,c2)) -> (r1 r2, c1 c2)
+                    L[:, k] = rho_to_drho(rho).reshape(x, y, x, y).transpose(0, 2, 1, 3).reshape(-1)
+            return L
+
+        def lind(op, g):
+            return lambda r: g * (op @ r @ op.conj().T - 0.5 * (op.conj().T @ op @ r + r @ op.conj().T @ op))
+        want_s0 = gen(lambda r: -1j * (h1 @ r - r @ h1) + lind(a1, g1)(r), [d1])
+        want_s1 = gen(lambda r: -1j * (h2 @ r - r @ h2), [d2])
+        AB, NN = np.kron(A, B), np.kron(nl, nr)
+        want_nn = gen(lambda r: -1j * (AB @ r - r @ AB) + lind(NN, g2)(r), [d1, d2])
+        for nm, got, want in (('site 0', chain.site_liouvillians[0], want_s0), ('site 1', chain.site_liouvillians[1], want_s1),
+                              ('bond 0', chain.nn_liouvillians[0], want_nn)):
+            dev = float(np.abs(np.array(got) - want).max())
+            if dev > 1e-10:
+                bad.append({'dims': [d1, d2], 'assembled Liouvillian': nm, 'deviation from the dense generator': dev})
+        # (b) dynamics
+        H_full = np.kron(h1, np.eye(d2)) + np.kron(np.eye(d1), h2) + AB
+        A1 = np.kron(a1, np.eye(d2))
+        Lfull = gen(lambda r: -1j * (H_full @ r - r @ H_full) + lind(A1, g1)(r) + lind(NN, g2)(r), [d1, d2])
+        r1, r2 = herm(d1), herm(d2)
+        r1, r2 = r1 @ r1.conj().T, r2 @ r2.conj().T
+        r1, r2 = r1 / np.trace(r1), r2 / np.trace(r2)
+        dt, steps = 0.05, 4
+        for order in (1, 2):
+            t = oqupy.PtTebd(initial_augmented_mps=oqupy.AugmentedMPS([r1, r2]), system_chain=chain, process_tensors=[None, None],
+                             parameters=oqupy.PtTebdParameters(dt=dt, order=order, epsrel=1e-12), dynamics_sites=[0, 1, (0, 1)], backend_config={})
+            res = t.compute(steps, progress_type='silent')
+            v0 = np.einsum('ab,cd->abcd', r1, r2).reshape(-1)
+            vt = (expm(Lfull * dt * steps) @ v0).reshape(d1, d1, d2, d2)
+            want = {0: np.einsum('abcc->ab', vt), 1: np.einsum('aacd->cd', vt)}
+            for s in (0, 1):
+                dev = float(np.abs(np.array(res['dynamics'][s].states[-1]) - want[s]).max())
+                if dev > 1e-7:
+                    bad.append({'dims': [d1, d2], 'order': order, 'site': s, 'deviation from dense propagation': dev})
+    return {'violates': bool(bad), 'detail': bad[:8]}
+
+
 # thorough tier (bounded native sweeps): (function, inputs, obligation of the open finding it reproduces or None)
-THOROUGH = [('parallel_modes', {}, None), ('partial_trace_consistency', {}, None), ('query_between_steps', {}, None), ('uncoupled_chain_is_single_sites', {}, None)]
+THOROUGH = [('parallel_modes', {}, None), ('partial_trace_consistency', {}, None), ('query_between_steps', {}, None), ('uncoupled_chain_is_single_sites', {}, None),
+            ('two_site_chain_vs_dense', {}, None)]
